@@ -209,10 +209,10 @@ def emit_valid_tie(g, recs, name):
     roots_oo = all(G.optional_only(r, g.env) for r in g.roots)
     text = (
         f"Definition lvt : list (nat * pv) := {coq_list([f'({coq_nat(s)}, {e})' for (s, e) in lvt], '(nat * pv)')}.\n"
-        "Definition lv (s : nat) (v : pv) : bool := existsb (fun p => Nat.eqb s (fst p) && pv_eqb v (snd p)) lvt.\n"
+        "Definition lv (s : nat) (v : pv) : bool := existsb (fun p => andb (Nat.eqb s (fst p)) (pv_eqb v (snd p))) lvt.\n"
         f"Definition vcases : list (ty * pv * bool * bool) :=\n  {coq_list(vcases, '(ty * pv * bool * bool)')}.\n"
         f"Definition bad_valid := mismatches (fun c : ty * pv * bool * bool => match c with (t, v, ev, es) =>\n"
-        f"  Bool.eqb (valid lv rt E {FUEL} t v) ev && Bool.eqb (stable lv rt E {FUEL} t v) es end) vcases.\n"
+        f"  andb (Bool.eqb (valid lv rt E {FUEL} t v) ev) (Bool.eqb (stable lv rt E {FUEL} t v) es) end) vcases.\n"
         f"Definition names : list nat := {coq_list([coq_nat(n) for n in names], 'nat')}.\n"
         f"Definition roots : list ty := {coq_list([reg.emit_ty(r) for r in g.roots], 'ty')}.\n"
         f"Definition guards := (nodup_namesb E names, defaults_okb rt E {FUEL} names, forallb (optional_only E {FUEL}) roots).\n"
